@@ -49,6 +49,17 @@ mut("addprefix-no-ancestor-flag", T, "        node, history = self.lru_trie.add_
     "        node, history = self.lru_trie.add_lru(prefix)\n        if node.has_webentity():\n            raise TraphException(", ["C13"])
 mut("flag-only-new-nodes", LT, "            # Flagging for underlying webentities\n            if (\n                i < l - 1\n                and flag_can_have_child_webentities\n                and not node.can_have_child_webentities()\n            ):\n                node.flag_can_have_child_webentities()\n                node.write()\n",
     "", ["C13"])
+mut("ladder-lt", T, "        if len(longest_candidate_prefix) <= history.webentity_position:\n            node.refresh()  # update node\n            return node, report",
+    "        if len(longest_candidate_prefix) < history.webentity_position:\n            node.refresh()  # update node\n            return node, report", ["C06"])
+mut("default-rule-despite-E", T, "        # In this case, the webentity already exists\n        if len(longest_candidate_prefix) <= history.webentity_position:",
+    "        # In this case, the webentity already exists\n        if longest_candidate_prefix and len(longest_candidate_prefix) <= history.webentity_position:", ["C06"])
+mut("no-variations", T, "        if longest_candidate_prefix:\n            report += self.__create_webentity(longest_candidate_prefix, expand=True)\n            node.refresh()  # update node\n            return node, report",
+    "        if longest_candidate_prefix:\n            report += self.__create_webentity(longest_candidate_prefix, expand=False)\n            node.refresh()  # update node\n            return node, report", ["C06", "C17"])
+mut("deepest-anchor-only", T, "                longest_candidate_prefix = candidate_prefix\n\n        # In this case, the webentity already exists",
+    "                longest_candidate_prefix = candidate_prefix\n            break\n\n        # In this case, the webentity already exists", ["C06"])
+mut("rule-install-forgets-report", T, "                    _, add_report = self.__add_page(lru)\n                    report += add_report", "                    _, add_report = self.__add_page(lru)", ["C06", "C12"])
+mut("potential-ignores-default", T, "        # If there is neither a webentity prefix nor a rules prefix, look for the default rule\n        longest_candidate_prefix = self.__apply_webentity_default_creation_rule(lru)",
+    "        # If there is neither a webentity prefix nor a rules prefix, look for the default rule\n        longest_candidate_prefix = None", ["C06"])
 
 def main():
     args = [a for a in sys.argv[1:] if not a.startswith("--")]
